@@ -211,7 +211,7 @@ static inline struct life *life_of_id(uint64_t id)
 {
 	unsigned thr = (unsigned) (id >> 32) & 0xff;
 	uint32_t seq = (uint32_t) id;
-	if ((id >> 40) != (g_round & 0xffffff) || thr >= MAXT || seq >= T[thr].nlives)
+	if ((id >> 40) != (g_round & 0xffffff) || thr >= MAXT || seq >= __atomic_load_n(&T[thr].nlives, __ATOMIC_ACQUIRE))
 		return NULL;
 	return &T[thr].lives[seq];
 }
@@ -460,12 +460,12 @@ static void *ts_alloc(struct tstate *ts, size_t nmemb, size_t size, int is_callo
 		__atomic_fetch_add(&ts->works_out, 1, __ATOMIC_SEQ_CST);
 		__atomic_fetch_add(&ts->works_total, 1, __ATOMIC_RELAXED);
 	} else if (kind == GA_K_HT) {
-		if (!ts->ht_ptr)
-			ts->ht_ptr = p;
+		if (!VP_LOAD(ts->ht_ptr))
+			VP_STORE(ts->ht_ptr, p);
 	} else if (kind == GA_K_BUCKETS) {
 		long live = __atomic_add_fetch(&ts->live_bucket_nodes, (long) nmemb, __ATOMIC_RELAXED);
-		if (live > ts->peak_bucket_nodes)
-			ts->peak_bucket_nodes = live;
+		if (live > VP_LOAD(ts->peak_bucket_nodes))
+			VP_STORE(ts->peak_bucket_nodes, live);
 		__atomic_fetch_add(&tot_bucket_allocs, 1, __ATOMIC_RELAXED);
 		if (ts->bound && (unsigned long) live > ts->bound) {
 			vp_violation("lfht:bounds:bucket-memory-above-max_nr_buckets",
@@ -531,7 +531,7 @@ static void ah_free(void *state, void *ptr)
 	} else if (kind == GA_K_WORK)
 		__atomic_fetch_sub(&ts->works_out, 1, __ATOMIC_SEQ_CST);
 	__atomic_fetch_sub(&ts->live_allocs, 1, __ATOMIC_RELAXED);
-	if (ptr == ts->ht_ptr)
+	if (ptr == VP_LOAD(ts->ht_ptr))
 		__atomic_store_n(&ts->ht_freed, 1, __ATOMIC_RELEASE);	/* last touch of ts by the library */
 }
 
@@ -585,8 +585,8 @@ static int rz_close(unsigned long final_size, unsigned long requested)
 		return 0;	/* worker iteration that had nothing to do */
 	uint64_t du = sum_upd() - z->upd0, dl = sum_lookup() - z->look0;
 	int nontrivial = du >= 1 && dl >= 1;
-	if (z->iters > tot_max_loop_iters)
-		tot_max_loop_iters = z->iters;
+	if (z->iters > VP_LOAD(tot_max_loop_iters))
+		VP_STORE(tot_max_loop_iters, z->iters);
 	if (z->lazy) {
 		__atomic_fetch_add(&tot_lazy_evals, 1, __ATOMIC_RELAXED);
 		if (nontrivial)
